@@ -627,4 +627,13 @@ structure FlightCall where
   fn    : String
   deriving DecidableEq, Repr, Inhabited
 
+/-- `append(x, …)` (or an append-like call) on a slice `x` that is (a field of) a package-level
+    variable or of an object of a type held by package-level variables, where `len x = cap x` is
+    not established: the call may WRITE into the shared backing array. -/
+structure SharedAppend where
+  pos  : String
+  path : String
+  what : String
+  deriving DecidableEq, Repr, Inhabited
+
 end Conc
